@@ -282,11 +282,7 @@ skipSpace:
 		}
 	}
 	if p.stopAt != nil && (p.spaced || p.tok == illegalTok || p.stopToken()) {
-		// Note that the buffer may have been refilled since we read r,
-		// such as when peeking at the byte which follows a backslash,
-		// in which case r's bytes are gone and we cannot match on them.
-		w := uint(utf8.RuneLen(r))
-		if p.bsp >= w && bytes.HasPrefix(p.bs[p.bsp-w:], p.stopAt) {
+		if p.stopWordFollows(r) {
 			p.r = runeEOF
 			p.w = 1
 			p.tok = _EOF
@@ -412,6 +408,22 @@ skipSpace:
 	if p.err != nil {
 		p.tok = _EOF
 	}
+}
+
+// stopWordFollows reports whether the rune r which was just read,
+// followed by the input which has not been read yet, begins with the stop word.
+// The buffer may have been refilled since we read r, so r's bytes may be gone;
+// match on r itself, and refill until the rest of the word can be compared,
+// as the reader may not have delivered those bytes yet.
+func (p *Parser) stopWordFollows(r rune) bool {
+	var rb [utf8.UTFMax]byte
+	rest, ok := bytes.CutPrefix(p.stopAt, utf8.AppendRune(rb[:0], r))
+	if !ok {
+		return false
+	}
+	for len(p.bs)-int(p.bsp) < len(rest) && p.fill() > 0 {
+	}
+	return bytes.HasPrefix(p.bs[p.bsp:], rest)
 }
 
 // extendedGlob determines whether we're parsing a Bash extended globbing expression.
